@@ -71,6 +71,13 @@ def live():
         _live['load'] = lf
         _live['loader'] = lf.loader('')
         _live['dumper_cls'] = y.dumps_function().dumper
+        _live['rec_error'] = y.RecognitionError
+        # typed loads: a plain scalar is accepted where exactly its YAML 1.2
+        # type is declared
+        _live['typed'] = {'float': y.load_function(float),
+                          'int': y.load_function(int),
+                          'bool': y.load_function(bool),
+                          'str': y.load_function(str)}
     return _live
 
 
@@ -203,6 +210,30 @@ def check_word(s, case):
     if not ok:
         errs.append(('value', 'load(%r) = %r (%s), reference type %s' % (
             s, v, type(v).__name__, ref)))
+    if ok and ref in ('float', 'int', 'bool', 'str'):
+        # typed loading follows the same table: accepted as its reference
+        # type with the same value, rejected as the other scalar types
+        for tname, fn in st['typed'].items():
+            try:
+                tv = fn(s)
+            except st['rec_error']:
+                if tname == ref:
+                    errs.append(('value', 'load_function(%s)(%r) is rejected, '
+                                 'although the scalar is a YAML 1.2 %s' % (
+                                     tname, s, ref)))
+                continue
+            except Exception as e:  # noqa
+                errs.append(('value', 'load_function(%s)(%r) raised %s: %s' % (
+                    tname, s, type(e).__name__, str(e)[:100])))
+                continue
+            same_v = (type(tv) is type(v) and
+                      (same_float(tv, v) if type(v) is float else tv == v))
+            if tname != ref or not same_v:
+                errs.append(('value', 'load_function(%s)(%r) = %r; the scalar '
+                             'is a YAML 1.2 %s and load() gives %r' % (
+                                 tname, s, tv, ref, v)))
+    if not ok:
+        pass
     elif _MIXABLE.match(s):
         # the same text quoted and plain in one document: the quoted one is
         # a string, the plain one what it is on its own, in either order
